@@ -18,6 +18,17 @@ CLASS_FIELDS = {
         "g_rest_matches": "bool",    # do all OTHER match components of the line match (onmatch look-ahead)
         "g_line_matches_calls": "int",
     },
+    "CsvPath": {
+        "modes": "obj:ModeController", "_is_valid": "bool", "stopped": "bool", "_freeze_path": "bool",
+        "scan_count": "int", "match_count": "int", "_current_match_count": "int", "_advance": "int",
+        "g_printed": "list[str]",    # what CsvPath.print() has sent to the printers, in order
+    },
+    "ModeController": {"validation_mode": "obj:ValidationMode", "return_mode": "obj:ReturnMode", "csvpath": "obj:CsvPath"},
+    "ValidationMode": {"_raise_validation_errors": "optbool", "_print_validation_errors": "optbool", "_stop_on_validation_errors": "optbool",
+                       "_fail_on_validation_errors": "optbool", "_match_validation_errors": "optbool", "_log_validation_errors": "optbool"},
+    "ErrorCommsManager": {"_csvpath": "obj:CsvPath", "_policy": "list[str]"},
+    "Error": {"error": "exception", "exception_class": "str", "filename": "optstr", "line_count": "val", "match_count": "val",
+              "scan_count": "val", "message": "optstr", "trace": "optstr", "json": "optstr", "datum": "val", "source": "val", "match": "optstr", "at": "opaque"},
     "Matcher": {
         "_AND": "bool", "csvpath": "obj:CsvPath",
         "g_current": "val",          # what get_variable(name, tracking) returns for the variable being assigned
@@ -31,6 +42,7 @@ P_LINE_MATCHES = "def patch(self):\n    self.g_line_matches_calls += 1\n    retu
 P_GET_VARIABLE = "def patch(self, name, *, tracking=None, set_if_none=None):\n    return self.g_current\n"
 P_SET_VARIABLE = ("def patch(self, name, *, value, tracking=None):\n    self.g_writes += 1\n    self.g_wname = name\n"
                   "    self.g_wvalue = value\n    self.g_wtracking = tracking\n")
+P_PRINT = "def patch(self, string):\n    self.g_printed.append(string)\n"
 P_WHAT = "def patch(self, actor, action):\n    import types\n    w = types.SimpleNamespace()\n    w.result = lambda *a, **k: w\n    w.because = lambda *a, **k: w\n    w.action = lambda *a, **k: w\n    return w\n"
 
 NATIVE_PATCHES = {
@@ -41,6 +53,7 @@ NATIVE_PATCHES = {
     "csvpath.matching.matcher.Matcher.set_variable": P_SET_VARIABLE,
     "csvpath.matching.matcher.Matcher._what": P_WHAT,
 }
+CSVPATH_PRINT_PATCH = {"csvpath.csvpath.CsvPath.print": P_PRINT}
 
 SPEC_FUNS = {
     # the documented truth value of y under asbool: the real ExpressionUtility.asbool is the native meaning
@@ -89,6 +102,12 @@ def interface_contracts():
         returns="none", class_fields=CLASS_FIELDS,
         assumptions=["Matcher.set_variable(name, value, tracking) performs exactly one store write (write log g_w*); "
                      "CsvPath.set_variable is under its own contract in C03"]))
+    cs.append(Contract(
+        target="csvpath/csvpath.py::CsvPath.print", interface=True, types={"string": "str"},
+        modifies=["self.g_printed"],
+        ensures={"sent": "self.g_printed == old(self.g_printed) + [string]"},
+        returns="none", class_fields=CLASS_FIELDS,
+        assumptions=["CsvPath.print(s) hands s to every registered printer once (abstract view g_printed); the loop over printers is its own contract in C16"]))
     cs.append(Contract(
         target=f"{EXPRUTIL}::ExpressionUtility.asbool", interface=True, types={"v": "val"},
         ensures={"documented": "result == ufun_bool('asbool', v)"},
